@@ -290,7 +290,7 @@ package stree
 //@   ensures  [C01] values: forall y *node[T] :: {y.X} old(allocated(y)) ==> y.X == old(y.X)
 //@   ensures  [C01] frame: forall y *node[T] :: {y.left} {y.right} {y.keys} {y.desc} old(allocated(y)) && !inD(result, y) ==> sameNode(y)
 //@   ensures  [C01] slice: unchanged(elems(nodes))
-//@   modifies every(root.left), every(root.right), every(root.keys), every(root.desc), every(root.cnt), every(root.rep)
+//@   modifies every(nodes[0].left), every(nodes[0].right), every(nodes[0].keys), every(nodes[0].desc), every(nodes[0].cnt), every(nodes[0].rep)
 //@   decreases len(nodes)
 //@   call extract#1: cmp = cmp
 //@   call extract#2: cmp = cmp
